@@ -682,6 +682,29 @@ class Program:
         self._bodies[path] = b
         return b
 
+    def body_or_impl(self, path, required=True):
+        """the body at `path`, or - when that body has become a thin wrapper (a handful of blocks that hand all
+        of its parameters, in order, to one function of the same module) - the function that now does the work;
+        splitting `f` into `f` + `f_impl` must not make an anchor disappear"""
+        b = self.body(path, required=required)
+        for _ in range(3):
+            if b is None or len(b.live) > 24:
+                return b
+            mod = b.path.rsplit("::", 1)[0]
+            cands = []
+            for c in b.live_calls():
+                if not c.d.startswith(mod + "::") or c.d == b.path or len(c.args) != b.argc or b.argc == 0:
+                    continue
+                if all(any(x[0] == "arg" and x[1] == i + 1 for x in b.origins(a)) for i, a in enumerate(c.args)):
+                    cands.append(c.d)
+            if len(set(cands)) != 1:
+                return b
+            nb = self.body(cands[0], required=False)
+            if nb is None:
+                return b
+            b = nb
+        return b
+
     def bodies(self):
         for p in self.facts.bodies:
             yield self.body(p)
